@@ -95,17 +95,17 @@ class Result:
         res.update(extra or {})
         if self.problems:
             rep, script = replay() if replay else (False, "")
-            return {**res, "status": "cex", "detail": "; ".join(self.problems[:3]), "cex": {"goal": "identity", "key": "identity", "inputs": {"problems": self.problems[:6]}, "reproduced": rep, "replay_script": script}}
+            return {**res, "status": "cex", "detail": "; ".join(self.problems[:3]), "cex": {"goal": "identity", "key": getattr(self, "key", "identity"), "inputs": {"problems": self.problems[:6]}, "reproduced": rep, "replay_script": script}}
         return {**res, "status": "holds", "twin_ok": self.n > 0}
 
 
-def _run_msd(with_rot=True):
+def _run_msd(with_rot=True, diag=False):
     """msdFromMandG on symbolic M, G_a, G_b with DirectSolve replaced by a fresh lambda; returns everything read back"""
     mod = module("theobald_rmsd.cpp")
     got = {}
 
     def setup(I):
-        M = [Poly.var(f"m{r}{c}") for r in range(3) for c in range(3)]
+        M = [Poly.var(f"m{r}{c}") if (r == c or not diag) else P(F(0)) for r in range(3) for c in range(3)]
         Ga, Gb = Poly.var("Ga"), Poly.var("Gb")
         lam = Poly.var("lam")
 
@@ -113,10 +113,12 @@ def _run_msd(with_rot=True):
             got["direct_args"] = a
             return lam
         I.stubs = {DIRECT: direct}
+        if diag:
+            I.side += [z3.And(I.emit(Poly.var(f"m{r}{r}")) >= -10, I.emit(Poly.var(f"m{r}{r}")) <= 10) for r in range(3)] + [z3.And(I.emit(lam) >= -40, I.emit(lam) <= 40)]
         rot = I.new_floats([P(F(0))] * 9)
         return [I.new_floats(M), Ga, Gb, 4, 1 if with_rot else 0, rot], {"M": M, "Ga": Ga, "Gb": Gb, "lam": lam, "rot": rot}
     paths = []
-    for I, ctx, ret in L.explore(mod, MSD, setup, timeout_ms=30000, max_paths=16):
+    for I, ctx, ret in L.explore(mod, MSD, setup, timeout_ms=30000, max_paths=16, exact=diag):
         paths.append({"ret": ret, "rot": I.get_floats(ctx["rot"], 9), "path": list(I.path), "side": list(I.side), "fnapps": list(I.fnapps), "ctx": ctx, "direct": got.get("direct_args"), "I": I})
     return mod, paths
 
@@ -211,13 +213,21 @@ def msd_algebra():
         if not all(same(dv[2], normq) for dv in divs[-4:]):
             R_.problems.append("quaternion components are not all divided by the same norm")
         R_.identity("norm^2 = q.q", qsqr, q[0] * q[0] + q[1] * q[1] + q[2] * q[2] + q[3] * q[3])
-        # (a) eigenvector identity: (K - lam I) q = (P(lam), 0, 0, 0)
+        # (a) eigenvector identity: (K - lam I) q = P(lam) e_i for the row i of the adjugate the code took q from (row 0, or a fallback row when
+        #     that one vanishes): at a root of P the vector q is an eigenvector for lambda
         Plam = lam * lam * lam * lam + P(C2) * lam * lam + P(C1) * lam + P(C0)
+        comps = []
         for i in range(4):
             lhs = Poly.const(F(0))
             for j in range(4):
                 lhs = lhs + (K[i][j] - (lam if i == j else P(F(0)))) * q[j]
-            R_.identity(f"(K - lambda I) q, component {i}", lhs, Plam if i == 0 else P(F(0)))
+            comps.append(lhs)
+        rows = [i for i in range(4) if all(same(comps[j], Plam if j == i else P(F(0))) for j in range(4))]
+        R_.n += 4
+        if len(rows) != 1:
+            R_.problems.append("(K - lambda I) q is not P(lambda) times a unit vector: q is not a row of the adjugate / not an eigenvector at a root")
+        else:
+            R_.rows_seen = getattr(R_, "rows_seen", set()) | {rows[0]}
         # (b) the rotation written out is a function of the NORMALISED quaternion only (degree 2 in Q, no other symbols)
         for k in range(9):
             vs = {v for mono in P(rot[k]).t for v in mono}
@@ -393,6 +403,8 @@ for trial in range(60):
     N = [3, 4, 5, 7, 8, 13][trial %% 6]; pad = ((N + 3) // 4) * 4
     a = rng.randn(N, 3) * (1 + trial %% 3); b = a @ np.linalg.qr(rng.randn(3, 3))[0] * (1 if trial %% 2 else 1) + rng.randn(N, 3) * [0.01, 0.3, 1.0][trial %% 3]
     if trial %% 5 == 4: b = a * np.array([1, 1, -1]) + rng.randn(N, 3) * 0.05            # near mirror image
+    if trial %% 10 == 9:                                                                 # EXACT mirror image of the centred structure: bit-identical traces, different structures
+        a = a - a.mean(0); a = a.astype(np.float32).astype(float); a -= a.mean(0); b = a * np.array([1.0, 1.0, -1.0])
     co = np.zeros((2, pad, 3), dtype=np.float32); co[0, :N] = a; co[1, :N] = b
     flat = np.ascontiguousarray(co[:, :N].reshape(2, N, 3)); tr = np.zeros(2, dtype=np.float32)
     lib.inplace_center_and_trace_atom_major(fp(flat), fp(tr), 2, N)
@@ -546,3 +558,169 @@ def _replay_superpose(sel):
         os.unlink(fh.name)
         return r.returncode == 1, script + "\n# " + (r.stdout + r.stderr)[-400:].replace("\n", "\n# "), name.split("[")[0]
     return rep
+
+
+def degenerate_branch(repeated: bool = False):
+    """when is the IDENTITY rotation returned (all rows of the adjugate below the threshold |q|^2 < 1e-11)?  On diagonal inner-product matrices
+    M = diag(m0, m1, m2) the key matrix is diagonal with entries K_ii(m), its largest eigenvalue is the largest entry, and the code's |q|^2 for
+    adjugate row i -- the polynomial the code computes, read off the path that uses that row -- must equal prod_{j != i} (K_jj - lambda)^2
+    at lambda = K_ii (exact identity).  Hence with a SIMPLE largest eigenvalue and gaps g to the others the code finds |q|^2 >= g^6 and never
+    falls through to the identity (repeated=False).  With a REPEATED largest eigenvalue every row vanishes identically and the identity is
+    returned although it is not optimal (repeated=True): decided on M = diag(-1, -1, -1), the point inversion b = -a."""
+    t0 = time.time()
+    R_ = Result()
+    R_.key = "identity_for_repeated_eigenvalue" if repeated else "identity"
+    mod, paths = _run_msd(True)
+    K = _K_from_code()
+    zero = {f"m{r}{c}": P(F(0)) for r in range(3) for c in range(3) if r != c}
+    Kd = [subst(K[i][i], zero) for i in range(4)]
+    lam = Poly.var("lam")
+    qs = {}
+    ident = 0
+    for p in paths:
+        sq = [(v, a[0]) for kind, v, a in p["fnapps"] if kind == "sqrt"]
+        divs = [(qv, a[0], a[1]) for kind, qv, a in p["fnapps"] if kind == "div"]
+        if not sq or len(divs) < 4:
+            ident += 1
+            continue
+        q = [subst(P(dv[1]), zero) for dv in divs[-4:]]
+        # which adjugate row is this?  the one whose diagonal cofactor is the only non-zero component on diagonal M
+        nz = [i for i in range(4) if len(q[i].t)]
+        if len(nz) != 1:
+            R_.problems.append("on diagonal M a row of the adjugate must have exactly one non-zero component")
+            continue
+        val = subst(P(sq[-1][1]), zero)
+        if nz[0] in qs and not same(qs[nz[0]], val):
+            R_.problems.append(f"two paths use adjugate row {nz[0]} with different |q|^2")
+        qs[nz[0]] = val
+    if ident < 1 or sorted(qs) != [0, 1, 2, 3]:
+        R_.problems.append(f"expected four adjugate rows and one identity branch, found rows {sorted(qs)} and {ident} identity branches")
+        return R_.verdict({"paths": len(paths), "ir_instructions": mod.ninsns}, lambda: _replay_180(repeated))
+    for i in range(4):
+        want = P(F(1))
+        for j in range(4):
+            if j != i:
+                want = want * (Kd[j] - Kd[i])
+        R_.identity(f"|q|^2 of adjugate row {i} at lambda = K_{i}{i} equals prod (K_jj - K_ii)^2", subst(qs[i], {"lam": Kd[i]}), want * want)
+    if repeated:
+        # M = diag(-1,-1,-1): K = diag(-3, 1, 1, 1), lambda = 1 (triple): every row's |q|^2 is 0 -> identity branch, but <I, M> = -3 < 1
+        point = {"m00": P(F(-1)), "m11": P(F(-1)), "m22": P(F(-1)), "lam": P(F(1))}
+        vals = [subst(qs[i], point).cval() for i in range(4)]
+        kvals = [subst(Kd[i], point).cval() for i in range(4)]
+        if all(v == 0 for v in vals) and max(kvals) == 1 and kvals[0] < 1:
+            R_.problems.append(f"largest eigenvalue repeated (K = diag{tuple(int(k) for k in kvals)}, b = -a): every adjugate row vanishes, the identity is returned, but <I,M> = {int(kvals[0])} < lambda = 1")
+    return R_.verdict({"paths": len(paths), "ir_instructions": mod.ninsns, "threshold_note": "identity only if prod of eigenvalue gaps < 3.2e-6 (|q|^2 < 1e-11)"}, lambda: _replay_180(repeated))
+
+
+_REPLAY_180 = r'''
+import sys, ctypes, tempfile, subprocess, os, numpy as np, mdtraj as md, warnings
+warnings.simplefilter("ignore")
+REPO = os.environ.get("VT_REPO", "/repo"); R = REPO + "/mdtraj/rmsd"
+d = tempfile.mkdtemp(); so = d + "/r.so"
+subprocess.check_call(["g++", "-O2", "-shared", "-fPIC", "-D__NO_INTRINSICS", "-I" + R + "/include", "-I" + R + "/src", R + "/src/theobald_rmsd.cpp", R + "/src/rotation.cpp", R + "/src/center.cpp", "-o", so])
+lib = ctypes.CDLL(so); lib.msd_atom_major.restype = ctypes.c_float; lib.rot_msd_atom_major.restype = ctypes.c_float
+fp = lambda x: x.ctypes.data_as(ctypes.c_void_p)
+rng = np.random.RandomState(0); bad = 0
+a = rng.randn(1, 7, 3).astype(np.float32)
+cases = (("180 degrees about z", np.diag([-1.0, -1.0, 1.0])), ("180 degrees about x", np.diag([1.0, -1.0, -1.0]))) if not %(repeated)r else (("point inversion (b = -a)", -np.eye(3)),)
+for name, D in cases:
+    b = (a[0] @ D.T)[None].astype(np.float32)
+    t, ref = md.Trajectory(a.copy(), None), md.Trajectory(b, None)
+    if %(native)r:
+        # the installed extension predates source repairs: superpose through a fresh build of the CURRENT kernel sources
+        A = np.ascontiguousarray(a[0] - a[0].mean(0), dtype=np.float32); B = np.ascontiguousarray(b[0] - b[0].mean(0), dtype=np.float32)
+        rot = np.zeros(9, dtype=np.float32); Ga = ctypes.c_float(float((A.astype(float) ** 2).sum())); Gb = ctypes.c_float(float((B.astype(float) ** 2).sum()))
+        r = float(np.sqrt(max(0.0, lib.msd_atom_major(7, 7, fp(A), fp(B), Ga, Gb, 1, fp(rot)))))
+        after = float(np.sqrt(lib.rot_msd_atom_major(7, 7, fp(A), fp(B), fp(rot))))
+    else:
+        r = float(md.rmsd(t, ref)[0]); t.superpose(ref)
+        after = float(np.sqrt(((t.xyz[0] - ref.xyz[0]) ** 2).sum(1).mean()))
+    print("reference = structure rotated by", name, ": minimal RMSD =", round(r, 5), " RMSD after applying the returned rotation =", round(after, 5))
+    bad += after > r + 1e-2
+sys.exit(1 if bad else 0)
+'''
+
+
+def _replay_180(repeated=False):
+    import subprocess
+    import sys
+    script = _REPLAY_180 % dict(repeated=repeated, native=True)
+    with tempfile.NamedTemporaryFile("w", suffix=".py", delete=False) as fh:
+        fh.write(script)
+    r = subprocess.run([sys.executable, fh.name], capture_output=True, text=True, env=dict(os.environ, VT_REPO=str(REPO)))
+    os.unlink(fh.name)
+    return r.returncode == 1, script + "\n# " + (r.stdout + r.stderr)[-500:].replace("\n", "\n# ")
+
+
+def small_scale(direction: str = "rot40"):
+    """the degenerate-rotation cutoff must not reject SMALL structures: M = s * D with D the inner-product matrix of a perfectly superposable
+    pair (an isotropic structure against itself rotated: by 40 degrees about z, or by 180 degrees about z), G_a = G_b = s, lambda = s, for EVERY
+    scale s in [1e-4, 1] nm^2 (a water molecule has s ~ 0.01): the identity branch must be infeasible.  One real variable: exact encoding."""
+    import math
+    t0 = time.time()
+    mod = module("theobald_rmsd.cpp")
+    if direction == "rot40":
+        c, sn = F(math.cos(math.radians(40.0))).limit_denominator(10**6), F(math.sin(math.radians(40.0))).limit_denominator(10**6)
+        D = [[c, sn, 0], [-sn, c, 0], [0, 0, 1]]           # M[r][c] = sum a_r b_c with b = Rz a and isotropic second moments
+    else:
+        D = [[-1, 0, 0], [0, -1, 0], [0, 0, 1]]
+    s = Poly.var("s")
+    got = {}
+
+    def setup(I):
+        I.side += [I.emit(s) >= rv(F(1, 10000)), I.emit(s) <= rv(F(1))]
+        M = [s * Poly.const(F(D[r][c_]) / 3) for r in range(3) for c_ in range(3)]
+
+        def direct(I2, a):
+            got["called"] = True
+            return s                                      # perfect superposition: lambda = (G_a + G_b)/2
+        I.stubs = {DIRECT: direct}
+        rot = I.new_floats([P(F(0))] * 9)
+        return [I.new_floats(M), s, s, 4, 1, rot], {"rot": rot}
+    n, ident, rows = 0, 0, 0
+    try:
+        for I, ctx, ret in L.explore(mod, MSD, setup, timeout_ms=30000, max_paths=16, exact=True):
+            n += 1
+            rot = I.get_floats(ctx["rot"], 9)
+            if all(same(rot[k], P(F(1 if k in (0, 4, 8) else 0))) for k in range(9)):
+                ident += 1
+            else:
+                rows += 1
+    except L.EncoderError as e:
+        return {"status": "inconclusive", "detail": f"exploration failed: {e}"}
+    res = {"queries": n, "solver_s": 0.0, "paths": n, "wall_s": round(time.time() - t0, 2), "ir_instructions": mod.ninsns}
+    if ident:
+        rep, script = _replay_small()
+        return {**res, "status": "cex", "detail": "for some scale s in [1e-4, 1] the identity rotation is returned for a perfectly superposable pair",
+                "cex": {"goal": "small_scale", "key": "small_scale", "inputs": {"direction": direction}, "reproduced": rep, "replay_script": script}}
+    return {**res, "status": "holds", "twin_ok": rows > 0}
+
+
+_REPLAY_SMALL = r'''
+import sys, ctypes, tempfile, subprocess, os, numpy as np
+REPO = os.environ.get("VT_REPO", "/repo"); R = REPO + "/mdtraj/rmsd"
+d = tempfile.mkdtemp(); so = d + "/r.so"
+subprocess.check_call(["g++", "-O2", "-shared", "-fPIC", "-D__NO_INTRINSICS", "-I" + R + "/include", "-I" + R + "/src", R + "/src/theobald_rmsd.cpp", R + "/src/rotation.cpp", R + "/src/center.cpp", "-o", so])
+lib = ctypes.CDLL(so); lib.msd_atom_major.restype = ctypes.c_float; lib.rot_msd_atom_major.restype = ctypes.c_float
+fp = lambda x: x.ctypes.data_as(ctypes.c_void_p)
+w = np.array([[0.0, 0.0, 0.0], [0.09572, 0.0, 0.0], [-0.024, 0.0927, 0.0]])      # a water molecule, nm
+th = np.radians(40.0); Rz = np.array([[np.cos(th), -np.sin(th), 0], [np.sin(th), np.cos(th), 0], [0, 0, 1]]); bad = 0
+for scale in (1.0, 0.5, 0.2, 3.0):
+    a = w * scale; b = a @ Rz.T
+    A = np.zeros((4, 3), dtype=np.float32); B = np.zeros((4, 3), dtype=np.float32); A[:3] = a - a.mean(0); B[:3] = b - b.mean(0)
+    rot = np.zeros(9, dtype=np.float32); Ga = ctypes.c_float(float((A.astype(float) ** 2).sum())); Gb = ctypes.c_float(float((B.astype(float) ** 2).sum()))
+    m = lib.msd_atom_major(3, 4, fp(A), fp(B), Ga, Gb, 1, fp(rot)); after = float(np.sqrt(lib.rot_msd_atom_major(3, 4, fp(A), fp(B), fp(rot))))
+    print("water x", scale, ": minimal RMSD", round(float(np.sqrt(max(m, 0))), 6), " RMSD after applying the returned rotation", round(after, 6))
+    bad += after > 1e-3 * scale
+sys.exit(1 if bad else 0)
+'''
+
+
+def _replay_small():
+    import subprocess
+    import sys
+    with tempfile.NamedTemporaryFile("w", suffix=".py", delete=False) as fh:
+        fh.write(_REPLAY_SMALL)
+    r = subprocess.run([sys.executable, fh.name], capture_output=True, text=True, env=dict(os.environ, VT_REPO=str(REPO)))
+    os.unlink(fh.name)
+    return r.returncode == 1, _REPLAY_SMALL + "\n# " + (r.stdout + r.stderr)[-500:].replace("\n", "\n# ")
